@@ -628,6 +628,8 @@ class Evaluator:
         w = width_of(b.t)
         if D.is_c(b.x):
             if b.x == 0:
-                self.ill("range", "division by constant zero", n)
+                if b.static:
+                    self.ill("range", "division by constant zero", n)
+                self.env.runtime_error(True, "division by zero")  # concrete run: a simulation error, not a property of the text
         else:
             self.env.runtime_error(D.v_eq(b.x, 0, w), "division by zero")
